@@ -11,7 +11,12 @@ open TdModel.C27
 /-- The configuration read from the current source. -/
 def cfgOfSource : Cfg :=
   { handoutChecksDead := Facts.C28.handoutSites == Facts.C28.guardedHandoutSites && Facts.C28.aliveChecksDead
-    createCancelReleases := Facts.C28.createCancelReleases }
+    createCancelReleases := Facts.C28.createCancelReleases && Facts.C28.acqCreateSelect.contains 70 &&
+      !Facts.C28.acqCreateSelect.contains 71
+    bgOffersWaiters := Facts.C28.bgReadyOps == [60]
+    totalUnderCheck := opBefore Facts.C28.acqCreateOps 21 22 && opBefore Facts.C28.acqCreateOps 22 24 &&
+      !Facts.C28.createConnOps.contains 21
+    resetAlways := Facts.C28.deadOps == [1, 2, 3, 4, 5, 6] }
 
 /-- The remaining source facts the model's atomicity assumptions rest on: `transfer` sends under the
 lock, the stuck channel is captured under the pool mutex, `total++` is guarded by the limit inside
@@ -19,6 +24,13 @@ the critical section, waiter channels have capacity 1, `dead` decrements once un
 signals, `release` is one critical section. -/
 def atomicityFacts : Bool :=
   Facts.C28.transferSendsUnderLock && Facts.C28.stuckCapturedUnderMu && Facts.C28.limitGuard &&
-  Facts.C28.waiterChanCap1 && Facts.C28.deadOnceUnderMu && Facts.C28.releaseUnderMu
+  Facts.C28.waiterChanCap1 && Facts.C28.deadOnceUnderMu && Facts.C28.releaseUnderMu &&
+  -- interpreted from the regenerated operation lists
+  opBefore Facts.C28.acqWaitOps 30 31 && opBefore Facts.C28.acqWaitOps 31 32 && opBefore Facts.C28.acqWaitOps 32 33 &&
+  Facts.C28.acqWaitSelect.contains 82 && !Facts.C28.acqWaitSelect.contains 83 &&
+  opBefore Facts.C28.acqWaitOps 40 41 && opBefore Facts.C28.acqStuckOps 40 41 &&
+  opBefore Facts.C28.transferOps 50 51 && opBefore Facts.C28.transferOps 51 52 && opBefore Facts.C28.transferOps 52 54 &&
+  Facts.C28.acqCreateSelect.contains 73 && !Facts.C28.acqCreateSelect.contains 74 &&
+  Facts.C28.acqWaitSelect.contains 80 && !Facts.C28.acqWaitSelect.contains 81
 
 end TdModel.C28
